@@ -276,6 +276,13 @@ class C01(UdpCheck):
                 cfg.setdefault("phases", []).append({"t0": t_out, "t1": t_out + d, "src": "c0", "dst": "S", "cut": True})
                 pts.append(t_out + d - 0.25)
                 forced[round(t_out + d - 0.25, 4)] = ("server", 0)
+        elif r2 < 0.55 and dur > t_conn + 8.0:
+            # the client hears nothing from the server for more than 5 s (it reports DROPPED): it still holds its key, and
+            # forged datagrams that arrive afterwards find a keyed endpoint
+            t_out = round(t_conn + 1.0, 3)
+            cfg.setdefault("phases", []).append({"t0": t_out, "t1": t_out + 6.0, "src": "S", "dst": "c0", "cut": True})
+            pts.append(t_out + 5.6)
+            forced[round(t_out + 5.6, 4)] = ("client", 0)
         for k, t in enumerate(sorted(pts)):
             c = rng.randrange(n)
             op = {"op": "grid", "t": round(t, 4), "c": c, "target": rng.choice(["server", "client", "both"]),
